@@ -298,6 +298,10 @@ fn act_name_r(a: &RAct) -> &'static str {
 
 fn r_replay(ctx: &mut Ctx, init: &RInit, acts: &[RAct]) {
     let (mut v, mut r) = r_init(init);
+    if let Some(msg) = r_observe(&v, &r) {
+        ctx.violation("RawVector.init/wrong", json!({"Raw": {"init": init, "acts": []}}), json!({"observed": msg}));
+        return;
+    }
     for (k, act) in acts.iter().enumerate() {
         let case = || json!({"Raw": {"init": init, "acts": &acts[..=k]}});
         ctx.transitions += 1;
@@ -629,6 +633,10 @@ fn i_bfs(ctx: &mut Ctx, init: &IInit, depth: usize, pattern: u64, thorough: bool
 
 fn i_replay(ctx: &mut Ctx, init: &IInit, acts: &[IAct]) {
     let (mut v, mut w, mut r) = i_init(init);
+    if let Some(msg) = i_observe(&v, w, &r) {
+        ctx.violation("IntVector.init/wrong", json!({"Int": {"init": init, "acts": []}}), json!({"observed": msg}));
+        return;
+    }
     for (k, act) in acts.iter().enumerate() {
         let case = || json!({"Int": {"init": init, "acts": &acts[..=k]}});
         ctx.transitions += 1;
